@@ -678,6 +678,72 @@ LEVEL_NOTE = ("Trusted: Coq kernel, extraction, OCaml drivers, Rust harness, gen
               "checked on the real scripts only (oracle) for zsh and nushell.")
 
 
+# ---- nushell generator model ----
+# Byte-exact Gallina transcription of clap_complete_nushell/src/lib.rs with the description texts of the tree
+# (coq/theories/Complete/NushellModel.v; texts in FishModel.cdesc, dbuild = what Command::build does to them).  One more
+# correspondence stream: for every tree with an adversarial text in every slot, the module the extracted model writes must
+# equal the real generator's BYTE FOR BYTE -- with the texts as given (`adv`) and with innocuous texts of the same
+# emptiness (`inn`).  The theorems C17_nushell_script_* compose the per-slot comment theorem through this model.
+AREAS = AREAS + ["nushell"]
+TRUSTED = TRUSTED + [
+    "nushell generator model: extraction of Complete/NushellModel.v (+ FishModel.cdesc/dbuild; ExtrOcamlBasic only), "
+    "driver ocaml/nushell_driver.ml (spec reader incl. which spec items make long_help_exists_ true)",
+]
+ASSUMPTIONS = ASSUMPTIONS + [
+    "C17_nushell_script_*: every name the generator writes (bin name, command names, argument ids, shorts, longs and "
+    "their visible aliases, possible values) contains none of the bytes \" ' ` \\ # : names are written unescaped "
+    "(C17_nushell_script_quote_in_name_refuted is the witness for the quote)",
+]
+
+
+def _nushell_model_streams(tier, rng):
+    dist = {}
+    g = TreeGen(rng, dist)
+    cases = []
+    for t in HAND if tier != "quick" else HAND[1::3]:
+        h = hexs(t)
+        # both call paths of a help text (option / positional), about at three levels, a global option with values
+        spec = ("(cmd app (about %s) (arg a1 (short x61) (long lo-ng1) (valias al1) (vshort x7a) (help %s)) "
+                "(arg a2 (long lo-ng2) (takes) (global) (pv v1 %s) (pvhide v2) (help %s)) (arg a3 (pos) (help %s)) "
+                "(arg a6 (long a-long-option-name-over-the-indent) (multi) (hint file) (help %s)) "
+                "(sub (cmd sub-c1 (alias sal1) (about %s) (arg a4 (short x42) (long_help %s) (help %s)) "
+                "(arg a5 (pos) (req) (pv w1) (help %s)) "
+                "(sub (cmd sub-c2 (about %s))))))" % ((h,) * 11))
+        cases.append("(script nushell %s)" % spec)
+    for _ in range(100 if tier == "quick" else 2000):
+        g.n = 0
+        g.global_shorts = list("0123456789")
+        cases.append("(script nushell %s)" % g.cmd("app", 0))
+    return [Stream("nushell-model", cases, oracle=script_oracle, area="nushell", nontrivial=script_nontrivial,
+                   describe={"what": "module of the extracted nushell generator model == real module, byte for byte, for "
+                                     "the adversarial and for the innocuous texts",
+                             "slot x character class (texts generated)": dict(sorted(dist.items())),
+                             "trees": len(cases)})]
+
+
+_streams_without_nushell_model = streams
+
+
+def streams(tier, rng):
+    return _streams_without_nushell_model(tier, rng) + _nushell_model_streams(tier, rng)
+# what MANIFEST.json says about C17 after the nushell model
+RULE = RULE + ("  Stream nushell-model: trees with an adversarial text in every slot (options AND positionals, about at every "
+               "level) on which the module of the extracted nushell generator model (texts as given / innocuous) must equal the "
+               "real module byte for byte.")
+LEVEL_TEXT = (LEVEL_TEXT +
+              "  nushell: the comment theorem is composed through a byte-exact model of clap_complete_nushell (all of lib.rs; both "
+              "call paths of a help text -- option and positional -- go through the one modelled function; the padding before a "
+              "help comment is proved to depend on names only): for every command tree (any depth) whose names (bin names, "
+              "command names, argument ids, shorts, longs, aliases, possible values) contain none of \" ' ` \\ #, and for ANY two "
+              "assignments of description texts with the same presence shape, the ENTIRE modules have the same token skeleton "
+              "and final lexer state, every text is literal payload of a comment only and the module ends between words; "
+              "Command::build keeps a tree in the class, so the statement holds for generate() on the tree the user wrote.  A "
+              "quote in an argument id is a proved class boundary (witness replayed on the real generator).")
+LEVEL_NOTE = LEVEL_NOTE.replace("is proved for fish, PowerShell and elvish (generator models, tied byte for byte on every run) and "
+                                "checked on the real scripts only (oracle) for zsh and nushell.",
+                                "is proved for fish, PowerShell, elvish and nushell (generator models, tied byte for byte on every run) "
+                                "and checked on the real scripts only (oracle) for zsh.")
+# ---- end nushell generator model ----
 # ---- zsh generator model ----
 # Byte-exact Gallina model of clap_complete/src/aot/shells/zsh.rs with the description texts of the tree
 # (coq/theories/Complete/ZshModel.v; texts = FishModel.cdesc, dbuild).  One more correspondence stream: for every tree with
